@@ -44,3 +44,36 @@ Definition check_lkcase (c : lkcase) : bool :=
 Inductive kcase4 : Type := K3 (c : kcase3) | KLk (c : lkcase).
 Definition check_kcase4 (c : kcase4) : bool :=
   match c with K3 c => check_kcase3 c | KLk c => check_lkcase c end.
+
+(* ---- label entry points on every supported span type: solve_period(label) and solve(start=, end=) with the lookup model
+   Solver/SolveAllSpan.locate_span (list / tuple / range -> SpList, NumPy array -> SpArray, pandas Index -> SpIndex) ---- *)
+Require Import SolveAll SolveAllSpan EvalSolveAll EvalSolveSpan.
+
+Definition kind_of (k : nat) : spankind := match k with O => SpList | S O => SpArray | _ => SpIndex end.
+
+Definition F_solve_period_P (tb : otable) (k : nat) (span : list Z) :=
+  solve_period_P float PrimFloat.add PrimFloat.sub PrimFloat.mul PrimFloat.div (olookup tb pow_id) PrimFloat.opp PrimFloat.abs
+                 PrimFloat.ltb PrimFloat.leb PrimFloat.eqb fzero (fun f x => olookup tb f x fzero) (olookup tb) fflagged fisfin
+                 Z (locate_span (kind_of k) span).
+Definition F_solve_P_kind (tb : otable) (k : nat) (span : list Z) :=
+  solve_P float PrimFloat.add PrimFloat.sub PrimFloat.mul PrimFloat.div (olookup tb pow_id) PrimFloat.opp PrimFloat.abs
+          PrimFloat.ltb PrimFloat.leb PrimFloat.eqb fzero (fun f x => olookup tb f x fzero) (olookup tb) fflagged fisfin
+          Z (locate_span (kind_of k) span).
+
+Record spcase := mkSP {
+  sp_tab : otable; sp_prog : fprogram; sp_desc : mdesc; sp_opts : fopts; sp_kind : nat; sp_span : list Z; sp_lab : Z;
+  sp_state : fstate; spx_state : fstate; spx_out : outcome bool }.
+Definition check_spcase (c : spcase) : bool :=
+  let '(s', r) := F_solve_period_P (sp_tab c) (sp_kind c) (sp_span c) (sp_prog c) (sp_desc c) (sp_opts c) (sp_lab c) (sp_state c) in
+  state_eqb s' (spx_state c) && out_eqb r (spx_out c) && hyp_ok (sp_prog c) (sp_desc c).
+
+(* solve() on a span of the given kind with explicit labels (e_n of the embedded ecase is ignored) *)
+Record ekcase := mkEK { ek_kind : nat; ek_span : list Z; ek_e : ecase }.
+Definition check_ekcase (c : ekcase) : bool :=
+  let e := ek_e c in
+  let '(s', r) := F_solve_P_kind (e_tab e) (ek_kind c) (ek_span c) (e_prog e) (e_desc e) (e_opts e) (ek_span c) (e_start e) (e_end e) (e_state e) in
+  state_eqb s' (ex_state e) && out3_eqb (visits_out r) (ex_out e) && hyp_ok (e_prog e) (e_desc e).
+
+Inductive kcase5 : Type := K4 (c : kcase4) | KSP (c : spcase) | KEK (c : ekcase).
+Definition check_kcase5 (c : kcase5) : bool :=
+  match c with K4 c => check_kcase4 c | KSP c => check_spcase c | KEK c => check_ekcase c end.
